@@ -266,6 +266,16 @@ var checkQuantile = ev.Register("quantile", func(c *Case) ev.Outcome {
 			}
 		}
 	}
+	if c.W != nil {
+		// IQR is the difference of the two quartiles for a weighted sample as well (each view
+		// against its own quartiles: with real weights the order of summation may move a
+		// quartile that sits within rounding of its target)
+		for _, s := range []stats.Sample{given, perm, sorted, sortedUnflagged} {
+			if got, want := s.IQR(), s.Quantile(0.75)-s.Quantile(0.25); !sameF(got, want) {
+				return ev.Fail("weighted IQR = %.17g, Quantile(0.75)-Quantile(0.25) = %.17g", got, want)
+			}
+		}
+	}
 	// the same backing array with new contents (a reused read buffer): the result must
 	// follow the data, not the address
 	if c.W == nil && n >= 2 {
@@ -358,6 +368,15 @@ func TestQuantile(t *testing.T) {
 			}
 			if !any {
 				c.W[rapid.IntRange(0, n-1).Draw(rt, "wfix")] = 1
+			}
+			if rapid.IntRange(0, 3).Draw(rt, "dominant") == 0 {
+				// one observation outweighs all the others together (several quantiles, both
+				// quartiles among them, then fall on the same value)
+				tw := 0.0
+				for _, w := range c.W {
+					tw += w
+				}
+				c.W[rapid.IntRange(0, n-1).Draw(rt, "dominantAt")] = math.Ceil(tw) * float64(rapid.IntRange(1, 6).Draw(rt, "dominantBy"))
 			}
 		}
 		c.Perm = gen.Perm(rt, n, "perm")
